@@ -30,12 +30,16 @@ CLAIMED = {
     "C03": dict(category="proof",
         text="PARTIAL w.r.t. schedules. Lean theorems: strict 2PL over an exclusive lock manager makes conflict order = commit order, which respects real time (stated over trace timestamps whose "
              "hypotheses the `locks` driver checks on every recorded transaction). Deciding tie: every concurrent history (shared names, cross-directory renames over targets, shared-file "
-             "writes/truncates/reads, listings during updates, injected yields, shrinker active) is replayed in observed commit order on the sequential reference model and every reply must match.",
+             "writes/truncates/reads, listings during updates, injected yields, shrinker active) is replayed in observed commit order on the sequential reference model and every reply must match. "
+             "What a lock protects is fetched under the lock: the call order of Acquire / LookupSlot / Release regenerated from package fstxn is checked (slots_are_fetched_under_the_lock), and under that "
+             "discipline no transaction ever obtains a cache slot with another transaction's uncommitted changes, whatever is evicted when (model of locks and slots together).",
         design_ref="DESIGN.md 5/C03", note="trusted: Lean kernel, reference model, fstxn hooks and harness; schedules of the real runtime are sampled, not quantified over",
         technique="Lean 4 proof (2PL => commit-order serialization) + commit-order replay of observed concurrent histories on the reference model"),
     "C04": dict(category="proof",
         text="PARTIAL (for all histories: sampled). Lean theorem fsck_sound: the executable structure checker accepts a disk image only if the declarative well-formedness statement holds "
              "(pointers in the data region, one owner per block, bitmaps exact, sizes agree with blocks, unique well-formed names, one name per live object, '.'/'..' right, tree rooted at the root). "
+             "For ALL histories on the reference model: names unique, every name denotes a live object, one name per object (namespace invariants); on the block-level models: one owner per block under "
+             "any sequence of mappings, directory blocks decode to the reference model's slot lists, inode slots never overlap, bitmap updates reach the journal as single bits (regenerated). "
              "Tie: the checker runs on the logical disk of the real server at quiescent points of sequential and concurrent histories and on recovered crash images (incl. mid-free), decoded with the repository's decoders.",
         design_ref="DESIGN.md 5/C04", note="trusted: Lean kernel, harness image walk (obj.Log.Load + the repository's decoders), regenerated layout; histories and crash points sampled",
         technique="Lean 4 proof (verified checker: fsck_sound) + checker run on images of the real server's disk"),
@@ -47,7 +51,9 @@ CLAIMED = {
     "C06": dict(category="proof",
         text="Lean theorem ordered_no_deadlock on the waits-for model of the lock manager (ascending requests, fresh-allocation exception) + executable validators proved sound; the "
              "acquisition sequence of EVERY transaction of sequential and concurrent runs is validated by the Lean driver (ordering bugs are reported from one sequential execution), "
-             "watchdogs search for hangs.",
+             "watchdogs search for hangs. The lock manager as a transition system with abort-and-retry: every schedule of N requests whose restarts are within a budget or charged to a "
+             "transaction that finished meanwhile has at most N((N+F)(L+1)+L+1) steps and cannot stop before every request is answered (retry_bounded, no_run_stops_early); the charging "
+             "hypothesis is validated on every request of every sequential run.",
         design_ref="DESIGN.md 5/C06", note="trusted: Lean kernel, lock-manager model, fstxn hooks and harness; fair sync.Cond scheduling assumed",
         technique="Lean 4 proof (no cycle in waits-for under ordered acquisition) + validation of recorded lock traces"),
     "C08": dict(category="proof",
@@ -75,8 +81,10 @@ CLAIMED = {
         technique="Lean 4 proof of guards and decoder totality + hostile-input correspondence + fuzzing (search only)"),
     "C12": dict(category="proof",
         text="Lean theorems (byte level) on the reference model: never-written bytes read as zero for every history of writes/truncations, shrink-then-grow exposes zeros, writes touch "
-             "one file; correspondence: every READ reply compared byte for byte on sequences that shrink, re-grow, delete and recycle blocks.",
-        design_ref="DESIGN.md 5/C12", note="trusted: Lean kernel, reference model, harness; block-level zeroing invariant pending",
+             "one file; at the level of disk blocks (the bytes of files on blocks under the pointer tree, any number of files sharing the disk, blocks passing from file to file through the allocator): "
+             "after any history every file shows exactly its own content log, a truncation clears the kept last block, growth exposes zeros, and that a block handed out holds zeros follows from the "
+             "invariant kept by FreeBlock's zeroing (no_file_ever_shows_foreign_bytes). Correspondence: every READ reply compared byte for byte on sequences that shrink, re-grow, delete and recycle blocks.",
+        design_ref="DESIGN.md 5/C12", note="trusted: Lean kernel, reference model, harness; the block-level models are tied to the code through theorems to models that have correspondences (reference model, pointer tree)",
         technique="Lean 4 proof + correspondence"),
     "C13": dict(category="proof",
         text="Lean theorems about the paging function for arbitrary budgets (READDIR and READDIRPLUS are instances): page soundness, progress, no gaps, completeness at eof, and "
@@ -119,7 +127,8 @@ CLAIMED = {
         category="proof",
         text="Lean 4 theorems: round trip decode(encode v)=v for every XDR type descriptor and value (mutual structural induction); "
              "the descriptor table and both registration tables REGENERATED from nfstypes/nfs_xdr.go, nfs_types.go and cmd/*/main.go are "
-             "equal to the tables transcribed from RFC 1813 (rfl / decide over the whole table); oversize and truncated inputs refused. "
+             "equal to the tables transcribed from RFC 1813 (rfl / decide over the whole table); oversize inputs refused; no proper prefix of an encoding decodes, for every descriptor; "
+             "the decoder never looks past what it consumes; every decoded value re-encodes to the same length and value. "
              "The generic codec model is tied to the real generated Xdr methods by correspondence (values, mutated byte strings, all 28 registrations).",
         design_ref="DESIGN.md 5/C16",
         note="trusted: Lean kernel, the go/ast translator for nfs_xdr.go, the RFC transcription Spec/Rfc1813.lean, the xdr correspondence harness; go-rpcgen's xdr primitives are modelled (tied by correspondence), not verified",
